@@ -185,7 +185,7 @@ func init() {
 
 	core.Register(&core.Check{
 		ID:          "C06",
-		Rule:        "complete enumeration: every operator x every ordered pair of 34 operand forms (value class x source), not() on every form, every form as where/exists/all/iif criterion and as EvaluateAsBool result, and the algebraic laws on every pair; a case is non-trivial when the implementation produced a result or error that was compared against the truth table (hash of case id + outcome)",
+		Rule:        "complete enumeration: every operator x every ordered pair of 34 operand forms (value class x source), not() on every form, every form as where/exists/all/iif criterion and as EvaluateAsBool result, the algebraic laws on every pair, and one compiled expression per operator evaluated under every sequence of two environment bindings (rebinding); a case is non-trivial when the implementation produced a result or error that was compared against the truth table (hash of case id + outcome)",
 		Assumptions: []string{"the operand forms' own meanings (e.g. Patient.active is true on the fixture) are established by navigation, which C02 checks", "nil options / typed-nil elements are outside the domain"},
 		Subs: func(tier string) []core.Sub {
 			return []core.Sub{
@@ -209,6 +209,62 @@ func init() {
 						if got != want {
 							r.Fail(fmt.Sprintf("table|%s|%s(%s)x%s(%s)|got=%s|want=%s", op.name, a.Val, srcKind(a), b.Val, srcKind(b), normGot(got), want),
 								core.W{"src": src, "got": res.String(), "want": want, "left": a.Name, "right": b.Name})
+						}
+					}
+				}},
+				{Name: "rebinding", N: 4 + 3, Note: "one compiled expression per operator / not / iif / where over two environment variables, evaluated under every sequence of two bindings out of 6 values x 6 values (true, false, empty, non-Boolean, FHIR true, FHIR false): the truth table holds whatever the expression saw before", Run: func(i int, r *core.Rec) {
+					vals := []struct {
+						name string
+						v    any
+						t    tv
+					}{{"true", system.Boolean(true), tT}, {"false", system.Boolean(false), tF}, {"empty", system.Collection{}, tE}, {"nonbool", system.String("false"), tT}, {"fhir-true", fhir.Boolean(true), tT}, {"fhir-false", fhir.Boolean(false), tF}}
+					var src string
+					var ref func(a, b tv) string
+					if i < 4 {
+						op := ops[i]
+						src = "%p " + op.name + " %q"
+						ref = func(a, b tv) string { return op.ref(a, b).String() }
+					} else {
+						switch i - 4 {
+						case 0:
+							src = "%p.not()"
+							ref = func(a, _ tv) string { return refNot(a).String() }
+						case 1:
+							src = "iif(%p, true, false)"
+							ref = func(a, _ tv) string { return map[tv]string{tT: "true", tF: "false", tE: "false"}[a] }
+						default:
+							src = "Patient.where(%p).exists()"
+							ref = func(a, _ tv) string { return map[tv]string{tT: "true", tF: "false", tE: "false"}[a] }
+						}
+					}
+					comp := lib.Compile(src)
+					if !comp.OK() {
+						r.Fail("rebinding|does-not-compile", core.W{"src": src})
+						return
+					}
+					type bind struct{ p, q int }
+					var binds []bind
+					for p := range vals {
+						for q := range vals {
+							binds = append(binds, bind{p, q})
+						}
+					}
+					for _, first := range binds {
+						for _, second := range binds {
+							for k, b := range []bind{first, second} {
+								res := lib.EvalOpts(comp, input(), lib.EnvOpts(map[string]any{"p": vals[b.p].v, "q": vals[b.q].v})...)
+								r.Eval()
+								got, want := obs3(res), ref(vals[b.p].t, vals[b.q].t)
+								r.State(fmt.Sprintf("rebinding|%s|%s|%s", src, vals[b.p].name, vals[b.q].name))
+								r.Nontrivial(src, vals[b.p].name, vals[b.q].name, got)
+								if got != want {
+									w := core.W{"src": src, "p": vals[b.p].name, "q": vals[b.q].name, "got": res.String(), "want": want, "evaluation_no": k + 1}
+									if k == 1 {
+										w["earlier_binding"] = vals[first.p].name + "," + vals[first.q].name
+									}
+									r.Fail(fmt.Sprintf("rebinding|%s|got=%s|want=%s", src, normGot(got), want), w)
+								}
+							}
 						}
 					}
 				}},
